@@ -82,7 +82,7 @@ def main():
     file.createDimension("leadtime", len(ifile.leadtimes))
     file.createDimension("time", None)
     file.createDimension("location", len(ifile.locations))
-    vTime = file.createVariable("time", "i4", ("time",))
+    vTime = file.createVariable("time", "f8", ("time",))
     vOffset = file.createVariable("leadtime", "f4", ("leadtime",))
     vLocation = file.createVariable("location", "f8", ("location",))
     vLat = file.createVariable("lat", "f4", ("location",))
